@@ -4,6 +4,9 @@ import (
 	"bytes"
 	"encoding/json"
 	"fmt"
+	"go/ast"
+	"go/parser"
+	"go/token"
 	"os"
 	"os/exec"
 	"path/filepath"
@@ -45,7 +48,7 @@ type property struct {
 	Patterns    []string
 	Harnesses   []harness
 	Assumptions []string
-	Kinds       []string                                                      // if set: only violation candidates of these kinds belong to this property
+	Kinds       []string                                                     // if set: only violation candidates of these kinds belong to this property
 	Extra       func(rc *runCtx, ev *evidence) (violations int, broken bool) // non-GSX engines (ExprSem, RegexSem, ...)
 	ReplayExtra func(rc *runCtx, path string, data []byte) int
 }
@@ -125,6 +128,82 @@ func handWrittenCheckers() ([]string, error) {
 	}
 	sort.Strings(names)
 	return names, nil
+}
+
+// statefulCheckers finds, by reading /repo/checkers/*_checker.go, the checkers
+// whose methods assign to fields of their receiver (scratch state that
+// survives a visit), and which of them implement WalkFile themselves.
+func statefulCheckers() (stateful, fileWalkers map[string]bool) {
+	stateful, fileWalkers = map[string]bool{}, map[string]bool{}
+	files, _ := filepath.Glob(filepath.Join(repoDir, "checkers", "*_checker.go"))
+	for _, file := range files {
+		data, err := os.ReadFile(file)
+		if err != nil {
+			continue
+		}
+		names := checkerNameRE.FindAllStringSubmatch(string(data), -1)
+		if len(names) == 0 {
+			continue
+		}
+		fset := token.NewFileSet()
+		f, err := parser.ParseFile(fset, file, data, 0)
+		if err != nil {
+			continue
+		}
+		mut, fw := false, false
+		for _, d := range f.Decls {
+			fd, ok := d.(*ast.FuncDecl)
+			if !ok || fd.Recv == nil || len(fd.Recv.List) == 0 || len(fd.Recv.List[0].Names) == 0 || fd.Body == nil {
+				continue
+			}
+			if fd.Name.Name == "WalkFile" {
+				fw = true
+			}
+			recv := fd.Recv.List[0].Names[0].Name
+			onRecv := func(e ast.Expr) bool {
+				for {
+					switch x := e.(type) {
+					case *ast.SelectorExpr:
+						if id, ok := x.X.(*ast.Ident); ok && id.Name == recv && x.Sel.Name != "ctx" {
+							return true
+						}
+						e = x.X
+					case *ast.IndexExpr:
+						e = x.X
+					default:
+						return false
+					}
+				}
+			}
+			ast.Inspect(fd.Body, func(n ast.Node) bool {
+				switch s := n.(type) {
+				case *ast.AssignStmt:
+					for _, l := range s.Lhs {
+						if onRecv(l) {
+							mut = true
+						}
+					}
+				case *ast.IncDecStmt:
+					if onRecv(s.X) {
+						mut = true
+					}
+				case *ast.CallExpr:
+					if sel, ok := s.Fun.(*ast.SelectorExpr); ok && onRecv(sel.X) {
+						switch sel.Sel.Name {
+						case "Insert", "Clear", "Reset", "WriteString", "WriteByte":
+							mut = true
+						}
+					}
+				}
+				return true
+			})
+		}
+		for _, m := range names {
+			stateful[m[1]] = mut
+			fileWalkers[m[1]] = fw
+		}
+	}
+	return
 }
 
 // genVisitHarnesses adds one generated entry function per hand-written checker.
@@ -265,7 +344,7 @@ func runProperty(rc *runCtx, spec *property) int {
 				}
 				bounds = nb
 			}
-			opts := interp.Options{Solver: h.Solver, Bounds: bounds, MaxPaths: h.MaxPaths, Workers: h.Workers, Verbose: rc.verbose, MaxViol: 40,
+			opts := interp.Options{Solver: h.Solver, Bounds: bounds, MaxPaths: h.MaxPaths, Workers: h.Workers, Verbose: rc.verbose, MaxViol: 400,
 				SampleModels: 4, MapOrder: h.MapOrder, Seed: rc.seed + 1}
 			if rc.solver != "" {
 				opts.Solver = rc.solver
